@@ -11,11 +11,12 @@
                                               make_server_connection failure, handle_protocol_error (errors reported by
                                               the upstream connection), handle_connect_regular (eager connect failure)
 
-   Sites[s] = [protos, status, srck, reflects, path]: one entry per place that produces a page.
+   Sites[s] = [protos, status, srck, reflects, path, multiline]: one entry per place that produces a page.
      path = "read_headers": Http1Server.read_headers catches ValueError and answers itself
             "stream":       HttpStream sends ResponseProtocolError(message, code) to the client connection object
             "connect":      handle_connect_regular builds a plain 502 response (no template, no content type)
-   A payload is a sequence of atoms; Atoms[a] = [cls, markup]: cls = classes of its markup-significant characters,
+   A payload is a sequence of atoms; Atoms[a] = [cls, markup, nl] (nl: the atom is a line break; only sites with
+   multiline = TRUE -- error text handed over by the connection attempt -- can carry one): cls = classes of its markup-significant characters,
    markup = tokens a tokeniser sees when the atom is copied raw (design variant only).
    Escape / CType are the two decisions of format_error / make_error_response; TRUE / "html" is the code as it is.  *)
 EXTENDS Mon_ErrorPage, TLC
@@ -30,6 +31,7 @@ Payloads == UNION { [1..n -> AtomNames] : n \in 1..MaxAtoms }
 RECURSIVE ClsOf(_), MarkupOf(_)
 ClsOf(p) == IF p = <<>> THEN <<>> ELSE Atoms[Head(p)].cls \o ClsOf(Tail(p))
 MarkupOf(p) == IF p = <<>> THEN <<>> ELSE Atoms[Head(p)].markup \o MarkupOf(Tail(p))
+Lines(p) == 1 + Cardinality({ i \in 1..Len(p) : Atoms[p[i]].nl })   \* lines of the message part made of the payload
 CountLt(s) == Cardinality({ i \in 1..Len(s) : s[i] = "lt" })
 IsRef(t) == t = "ref"
 
@@ -63,9 +65,11 @@ PlainPage(s, proto, atoms) ==
 \* the client (and, for upstream sources, the server / the connect attempt) delivers the input
 Request(s, proto, atoms) ==
   /\ Live /\ pc = "idle" /\ proto \in Sites[s].protos
+  /\ \A i \in 1..Len(atoms) : Atoms[atoms[i]].nl => Sites[s].multiline   \* only some sources can carry a line break
   /\ sc' = [site |-> s, proto |-> proto, atoms |-> atoms]
   /\ pc' = Sites[s].path /\ UNCHANGED pend
-  /\ Emit(<<[k |-> "input", site |-> s, proto |-> proto, srck |-> Sites[s].srck, src |-> ClsOf(atoms)]>>)
+  /\ Emit(<<[k |-> "input", site |-> s, proto |-> proto, srck |-> Sites[s].srck, src |-> ClsOf(atoms),
+             lines |-> Lines(atoms)]>>)
 
 \* Http1Server.read_headers: except ValueError -> SendData(make_error_response(400, str(e))); CloseConnection
 H1ReadHeadersError ==
